@@ -95,6 +95,9 @@ def check_into(v: Any, prop: str, replay_case: Any = None) -> Dict[str, Any]:
         else:
             v.diverge("snoop_session", c)
     st = out["stats"]
-    if replay_case is None and (st["recognized"] == 0 or st["pending"] == 0 or st["unrecognized_without_context"] == 0):
-        raise tlc.MachineryError(f"vacuity: {st}")
+    # (what the sessions contain, not how far the replay got: a handler that raises ends its session)
+    exp = {"recognized": sum(e["class"] == "recognized" for h in hs for e in h), "pending": sum(e["class"] == "pending" for h in hs for e in h),
+           "unrecognized_without_context": sum(e["class"] == "unrecognized" and e["ctx"] == [-1] for h in hs for e in h)}
+    if replay_case is None and not all(exp.values()):
+        raise tlc.MachineryError(f"vacuity: {exp}")
     return {"states": res.distinct, **st}
